@@ -575,6 +575,43 @@ def oracle_api(run):
                         "with the same data and settings",
                         payload={"kind": "rerun"},
                         theorem="C12_pure_function")
+    # a small but real change of a numeric setting on an ALREADY FITTED curve:
+    # the stored hash is that of the new setting (= a fresh curve's)
+    for skey, va, vb in [("range_x", [-2e-6, 1e-6], [-2.009e-6, 1.009e-6]),
+                         ("weight_cp", 0, 8e-9),
+                         ("weight_cp", 1e-6, 1.000005e-6),
+                         ("gcf_k", 1.0, 1.000001),
+                         ("range_x", [-2e-6, 1e-6], [-2e-6, 1.000000001e-6])]:
+        run.case({"sensitivity": "after-fit:" + skey, "a": canon(va),
+                  "b": canon(vb)}, kind="api-sensitivity")
+        k2 = f"after-fit:{skey}:{json.dumps(canon(va))}|{json.dumps(canon(vb))}"
+        try:
+            with warnings.catch_warnings():
+                warnings.simplefilter("ignore")
+                ia = curves.make_indentation(cols)
+                ia.apply_preprocessing(["compute_tip_position"])
+                ka = dict(b)
+                ka[skey] = va
+                ia.fit_model(**ka)
+                h_a = ia.fit_properties.get("hash")
+                ia.fit_model(**{skey: vb})
+                h_ab = ia.fit_properties.get("hash")
+                ib = curves.make_indentation(cols)
+                ib.apply_preprocessing(["compute_tip_position"])
+                kb = dict(b)
+                kb[skey] = vb
+                ib.fit_model(**kb)
+                h_b = ib.fit_properties.get("hash")
+        except BaseException as e:
+            run.failing(SITE_HASH, k2 + "|raised", f"raised "
+                        f"{type(e).__name__}: {e}", payload={"kind": "rerun"})
+            continue
+        if h_ab != h_b or h_ab == h_a:
+            run.failing(SITE_HASH, k2, f"fit with {skey} = {va}, then "
+                        f"fit_model({skey}={vb}) on the same curve: stored "
+                        f"hash {h_ab} (first fit {h_a}); a fresh curve fitted "
+                        f"with {vb} has {h_b}", payload={"kind": "rerun"},
+                        theorem="C12_key_effect / C12_sensitive_*")
     return h0
 
 
